@@ -28,7 +28,8 @@ Pins     == {"none", "right", "wrong1"}
 Keyrings == {"off", "notfound", "right", "wrong1", "broken"}     \* "broken": every keyring call fails
 Getters  == {"nil", "present"}
 Devices  == {"ok", "fails"}                                       \* "fails": the submission itself errors (device error, damaged file)
-Protect  == {"encrypted", "clear"}                                \* key files only
+Protect  == {"encrypted", "clear", "clear-hdr"}                   \* key files only; "clear-hdr": an unencrypted PEM block that carries
+                                                                  \* headers (a comment), which do not make it encrypted
 
 VARIABLES cfg,       \* [flow, pin, keyring, getter, device, protect, answers]
           pc,        \* "start" | "obtain" | "submit" | "store" | "done"
@@ -48,6 +49,7 @@ Cfgs ==
      \* irrelevant dimensions are pinned so that each behaviour is generated once
      /\ c.flow # "token" => (c.pin = "none" /\ c.keyring = "off")
      /\ c.flow = "token" => c.protect = "encrypted"
+     /\ c.protect = "clear-hdr" => c.flow = "pem"
      /\ c.getter = "nil" => c.answers = <<>>
      /\ c.pin # "none" => (c.answers = <<>> /\ c.keyring = "off")
      \* a damaged OpenPGP key that still decrypts cannot be built with the library at hand: not generated
@@ -75,12 +77,12 @@ Start ==
        [] cfg.flow = "token" /\ cfg.pin = "none" ->
             /\ kfirst' = (cfg.keyring # "off") /\ pc' = "obtain"
             /\ UNCHANGED <<asked, cur, triedEmpty, log, stored, result>>
-       [] cfg.flow \in {"pem", "pgp"} /\ cfg.protect = "clear" ->
+       [] cfg.flow \in {"pem", "pgp"} /\ cfg.protect \in {"clear", "clear-hdr"} ->
             \* nothing to decrypt: parsed directly, the prompt is never consulted
             /\ log' = Append(log, Rec("parse", "clear"))
             /\ IF cfg.device = "fails" THEN Finish("error") ELSE Finish("ok")
             /\ UNCHANGED <<kfirst, asked, cur, triedEmpty, stored>>
-       [] cfg.flow \in {"pem", "pgp", "p12"} /\ ~(cfg.flow \in {"pem", "pgp"} /\ cfg.protect = "clear") ->
+       [] cfg.flow \in {"pem", "pgp", "p12"} /\ ~(cfg.flow \in {"pem", "pgp"} /\ cfg.protect \in {"clear", "clear-hdr"}) ->
             /\ IF cfg.getter = "nil" /\ ~(cfg.flow = "p12" /\ Variant = "code")
                THEN \* an encrypted key without any way to ask for the passphrase is an error
                     Finish("no-provider") /\ UNCHANGED <<kfirst, asked, cur, triedEmpty, log, stored>>
@@ -189,11 +191,11 @@ Honest ==
   pc = "done" =>
     /\ result = "ok" =>
          \/ (Tries # {} /\ LET k == CHOOSE k \in Tries : \A m \in Tries : m <= k IN Matches(log[k].arg) /\ cfg.device = "ok")
-         \/ (cfg.protect = "clear" /\ cfg.flow \in {"pem", "pgp"} /\ cfg.device = "ok")
+         \/ (cfg.protect \in {"clear", "clear-hdr"} /\ cfg.flow \in {"pem", "pgp"} /\ cfg.device = "ok")
     /\ (\E k \in Tries : Matches(log[k].arg) /\ cfg.device = "ok") => result \in {"ok", "keyring-error"}
 
 \* a key that is not encrypted never causes a prompt
-ClearKeyNeverPrompts == (cfg.flow \in {"pem", "pgp"} /\ cfg.protect = "clear") => asked = 0
+ClearKeyNeverPrompts == (cfg.flow \in {"pem", "pgp"} /\ cfg.protect \in {"clear", "clear-hdr"}) => asked = 0
 
 Terminates == <>(pc = "done")
 =============================================================================
